@@ -191,7 +191,57 @@ P.verify(fn(
         ('a_term_for_exactly_the_holders', 'all(iff(pos_[j] >= 0, %s) and (pos_[j] >= 0 or pos_[j] == 0 - 1) and implies(pos_[j] >= 0, pos_[j] < len(dem_terms)) for j in range(0, i))' % (HOLDER % ('j', 'j', 'j'))),
         ('terms_in_list_order', 'all(implies(pos_[j1] >= 0 and pos_[j2] >= 0 and j1 < j2, pos_[j1] < pos_[j2]) for j1 in range(0, i) for j2 in range(0, i))'),
     ])},
-    ensures=[],
+    ensures=[('every_sector_of_the_zone_list_examined', 'len(pos_) == len(ZL) and len(had_) == len(ZL)')],
     raises=[RaisesSpec('SyntaxError', when='True'), RaisesSpec('LogicError', when='True'), RaisesSpec('NotImplementedError', when='True'),
             RaisesSpec('ValueError', when='True'), RaisesSpec('IndexError', when='True'), RaisesSpec('KeyError', when='True')],
+))
+
+# ---- Sector.AddTermToEquation and MoneyMarket._GenerateEquations ----------------------------------------------------------------------
+EQV = 'self.EquationBlock.Equations[varname]'
+ATE = P.verify(fn(
+    'sfc_models.sector.Sector.AddTermToEquation',
+    args=dict(self=Ref('Sector'), varname=STR, term=STR),
+    requires=[('well_formed_equation', 'implies(has(self.EquationBlock.Equations, varname), allocated(%s) and eq_inv(%s))' % (EQV, EQV))],
+    modifies=['len.R', 'el.R', 'f.Term.Constant', 'f.Term.Term', 'f.Term.IsSimple', 'f.Term.IsBlob', 'f.Term.owner_', 'f.Term.pos_', 'tyof'],
+    ghost_after=[('term = Term(term)', "_assert(%r, 'parsing_the_term_touches_no_equation')" %
+                  ('implies(has(self.EquationBlock.Equations, varname), Den(%s) == old(Den(%s)) and eq_inv(%s))' % (EQV, EQV, EQV)))],
+    ensures=[('value_added', 'Den(%s) == old(Den(%s)) + V(nospace(term))' % (EQV, EQV)),
+             ('same_equation_object', '%s is old(%s) and %s.TermList is old(%s.TermList) and eq_inv(%s)' % (EQV, EQV, EQV, EQV, EQV)),
+             ('only_its_terms_written', 'terms_frame(%s)' % EQV)],
+    raises=[RaisesSpec('KeyError', when='not has(self.EquationBlock.Equations, varname)', iff=True),
+            RaisesSpec('SyntaxError', when='True'), RaisesSpec('LogicError', when='True'), RaisesSpec('NotImplementedError', when='True')],
+))
+
+cls('MoneyMarket', fields=dict(IssuerShortCode=STR, SearchListSource=Ref('CurrencyZone')))
+MEQ = "self.EquationBlock.Equations['DEM_' + self.Code]"
+PRIV_M = 'list_same_as(HP, ZL) and list_same_as(HP, inc_)'
+KEEP_M = '_assume(%r)\n_snapshot("HP")' % PRIV_M
+MINV = "has(self.EquationBlock.Equations, 'DEM_' + self.Code) and allocated(%s) and eq_inv(%s)" % (MEQ, MEQ)
+COUNTED = "_assert(%r, 'holder_demand_enters_the_total')" % ("Den(%s) == at(HP, Den(%s)) + V(nospace(%%s))" % (MEQ, MEQ))
+P.verify(fn(
+    'sfc_models.sector_definitions.MoneyMarket._GenerateEquations',
+    args=dict(self=Ref('MoneyMarket')),
+    requires=[('zone_objects_exist', ZONE_OK), ('market_code_is_local', "not ('__' in 'DEM_' + self.Code) and not ('__' in 'SUP_' + self.Code) and plain_name(self.Code)"),
+              ('a_market_holds_no_assets', 'not self.HasF')],
+    hints={'strip_rich': True, ('empty_list', 'dem_terms'): STR, ('empty_list', 'inc_'): INT},
+    ghost_after=[('dem_terms = []', 'inc_ = []'),
+                 ('self.AddTermToEquation(dem_name, term)', COUNTED % 'term' + '\ninc_[len(inc_) - 1] = 1\n' + KEEP_M),
+                 ('self.AddTermToEquation(dem_name, s.GetVariableName(dem_name))', 'inc_[len(inc_) - 1] = 1\n' + KEEP_M),
+                 ("re:self\\.AddVariable\\(dem_name, 'Total demand for ' \\+ self\\.LongName, ''\\)", 'pass'),      # (before the loop)
+                 ('re:(s|self)\\.AddVariable\\(.*', KEEP_M),
+                 ('re:term = s\\.GetVariableName\\(dem_name\\)', KEEP_M)],
+    loops={0: LoopSpec(header='for s in self.SearchListSource.GetSectors()', index='i', ghost={'ZL': '_it'}, body_ghost='inc_.append(0)\n_snapshot("HP")',
+                       modifies=['len.*', 'el.*', 'dh.*', 'dv.*', 'dk', 'tyof', 'f.Equation.*', 'f.Term.*'], invariants=[
+        ('bounds', '0 <= i and i <= len(ZL)'),
+        ('scratch', 'fresh(ZL) and fresh(inc_)'),
+        ('one_record_per_sector_examined', 'len(inc_) == i'),
+        ('zone_objects_exist', ZONE_OK),
+        ('demand_name_fixed', "dem_name == 'DEM_' + self.Code"),
+        ('total_demand_equation_well_formed', MINV),
+        ('sector_identities_kept', "heap_unchanged_except('tyof', 'len.*', 'el.*', 'dh.*', 'dv.*', 'dk', 'f.Equation.*', 'f.Term.*')"),
+        ('every_asset_holding_sector_but_the_issuer_is_in_the_total', 'all(iff(inc_[j] == 1, ZL[j].HasF and ZL[j].Code != self.IssuerShortCode) and (inc_[j] == 0 or inc_[j] == 1) for j in range(0, i))'),
+    ])},
+    ensures=[('every_sector_of_the_zone_list_examined', 'len(inc_) == len(ZL)')],
+    raises=[RaisesSpec('SyntaxError', when='True'), RaisesSpec('LogicError', when='True'), RaisesSpec('NotImplementedError', when='True'),
+            RaisesSpec('ValueError', when='True'), RaisesSpec('KeyError', when='True')],
 ))
